@@ -122,6 +122,9 @@ def run_property(pid, tier, seed, root):
     os.makedirs(build, exist_ok=True)
     replay_dir = os.path.join(root, '.build', 'replays')
     os.makedirs(replay_dir, exist_ok=True)
+    for f in os.listdir(replay_dir):
+        if f.startswith(pid + '_'):
+            os.remove(os.path.join(replay_dir, f))
     known = [k for k in load_known(root) if k['property'] == pid]
     known_open = [k for k in known if k.get('status') == 'known']
     known_defines = sorted({k['define'] for k in known_open if k.get('define')})
